@@ -203,7 +203,36 @@ class Cfg:
             ops += s["xs"]
         return ops
 
-    def slice(self, start_locals, max_nodes=4000, through_calls=True, stop_at_calls=()):
+    def _controlling(self, def_blocks):
+        """Locals tested by switches that decide which of several definitions of a variable executes."""
+        out = set()
+        dbs = set(def_blocks)
+        if len(dbs) < 2:
+            return out
+        for i, b in enumerate(self.blocks):
+            t = b["term"]
+            if t["t"] != "Switch" or len(set(t["to"])) < 2:
+                continue
+            sets = []
+            for s in dict.fromkeys(t["to"]):
+                seen, stack, hit = set(), [s], set()
+                while stack:
+                    x = stack.pop()
+                    if x in seen:
+                        continue
+                    seen.add(x)
+                    if x in dbs:
+                        hit.add(x)
+                        continue
+                    stack.extend(self.succ[x])
+                sets.append(frozenset(hit))
+            if len(set(sets)) > 1:
+                p = op_place(t["x"])
+                if p is not None:
+                    out.add(_place_local(p))
+        return out
+
+    def slice(self, start_locals, max_nodes=4000, through_calls=True, stop_at_calls=(), control=False):
         """Flow-insensitive backward slice from a set of locals.
         Returns a Signature with leaves."""
         sig = Signature()
@@ -218,6 +247,9 @@ class Cfg:
             seen.add(l)
             if 1 <= l <= argc:
                 sig.params.add(l)
+            if control and len(defs.get(l, [])) > 1:
+                for cl in self._controlling([d[1] for d in defs.get(l, [])]):
+                    work.append(cl)
             for d in defs.get(l, []):
                 if d[0] == "stmt":
                     s = d[3]
